@@ -12,7 +12,7 @@
 (* Validation is TOTAL: an event the reference semantics does not allow is   *)
 (* reported (PrintT <<"REJ", json>>) and the model re-synchronises on what   *)
 (* the implementation logged, so the rest of the trace is still checked.     *)
-EXTENDS Deviations, Json, IOUtils, TLC
+EXTENDS Deviations, Big, Json, IOUtils, TLC
 
 Trace == ndJsonDeserialize(IOEnv.TRACE)
 N == Len(Trace)
@@ -59,12 +59,12 @@ EquAt(c, i) ==
 
 KindOK(s, e) ==
   CASE s.k = "label" -> e.kind = "Label" /\ e.name = s.nm
-    [] s.k = "equ" -> e.kind = "Declare" /\ e.name = s.nm
+    [] s.k \in {"equ", "equb"} -> e.kind = "Declare" /\ e.name = s.nm
     [] s.k = "global" -> e.kind = "Export" \/ (e.kind = "Mnemonic" /\ e.op = "GLOBAL")
     [] s.k = "extern" -> e.kind = "Extern" \/ (e.kind = "Mnemonic" /\ e.op = "EXTERN")
     [] s.k \in {"bits", "cfg"} -> e.kind = "Config"
     [] s.k = "org" -> e.op = "ORG"
-    [] s.k = "data" -> e.op = s.mn
+    [] s.k \in {"data", "datab"} -> e.op = s.mn
     [] s.k = "resb" -> e.op = "RESB"
     [] s.k = "alignb" -> e.op = "ALIGNB"
     [] s.k \in {"ins", "br", "far", "raw"} -> e.kind \in {"Mnemonic", "Opcode"} /\ e.op = s.mn
@@ -83,7 +83,7 @@ JudgeP1(c, i, e) ==
   (IF e.bitsB # c.bits THEN {Mk(<<"C17">>, "mode in force differs")} ELSE {})
   \cup
   CASE s.k = "label" -> IF e.val # e.locB \/ d # 0 \/ e.ocA # e.ocB THEN {Mk(<<"C03">>, "label value is not the location counter")} ELSE {}
-    [] s.k \in {"equ", "cfg", "global", "extern"} ->
+    [] s.k \in {"equ", "equb", "cfg", "global", "extern"} ->
          IF d # 0 \/ e.ocA # e.ocB THEN {Mk(<<"C03", "C05", "C11">>, "directive emitted or moved LOC")} ELSE {}
     [] s.k = "bits" ->
          (IF d # 0 \/ e.ocA # e.ocB THEN {Mk(<<"C03", "C05">>, "directive emitted or moved LOC")} ELSE {})
@@ -92,6 +92,8 @@ JudgeP1(c, i, e) ==
          IF e.locA # s.v \/ e.dolA # s.v \/ e.ocA # e.ocB THEN {Mk(<<"C16", "C03", "C05">>, "ORG")} ELSE {}
     [] s.k = "data" ->
          IF d # ItemsLen(s.items, DataWidth(s.mn)) THEN {Mk(<<"C05", "C03">>, "LOC delta of data directive")} ELSE {}
+    [] s.k = "datab" ->
+         IF d # DataWidth(s.mn) THEN {Mk(<<"C05", "C03">>, "LOC delta of data directive")} ELSE {}
     [] s.k = "resb" ->
          IF Defined(s.e, env) /\ Eval(s.e, env) >= 0 /\ d # Eval(s.e, env) THEN {Mk(<<"C05", "C03">>, "LOC delta of RESB")} ELSE {}
     [] s.k = "alignb" ->
@@ -155,6 +157,11 @@ JudgeStmt(c, i, bytes, off, cgb) ==
               THEN {Mk(IF \E j \in 1..Len(s.items) : s.items[j].t = "e" /\ (UsesSym(s.items[j].e, env) \/ Names(s.items[j].e) \cap c.anames # {})
                        THEN <<"C05", "C03", "C06">> ELSE <<"C05", "C06">>, "data bytes")} \cup size
               ELSE size
+    \* a data item whose value (or an intermediate value) lies beyond 32 bits: exact arithmetic of Big.tla; the statement carries
+    \* the EQU definitions in force (defs), which the driver renders as the program's EQU statements
+    [] s.k = "datab" ->
+         IF ~BigOK(s.e, s.defs) THEN size
+         ELSE IF bytes # BLE(BigEval(s.e, s.defs), DataWidth(s.mn)) THEN {Mk(<<"C06", "C05", "C11">>, "data bytes (wide arithmetic)")} \cup size ELSE size
     [] s.k = "resb" ->
          IF ~Defined(s.e, env) THEN {Mk(<<"C07">>, "undefined symbol in RESB assembled silently")}
          ELSE IF Eval(s.e, env) < 0 THEN {Mk(<<"C07">>, "negative RESB assembled silently")}
